@@ -1,7 +1,7 @@
 (* C08 constrained forward dynamics: the returned accelerations and constraint forces satisfy the motion
    and the constraint equations, and are the only pair that does (so all solution methods agree). *)
 From Coq Require Import List.
-From RV Require Import Scalar Laws ListArr LinDef LinThm ModelDef DynDef ConsDef ConsThm.
+From RV Require Import Scalar Laws ListArr LinDef LinThm ModelDef DynDef ConsDef ConsThm C14Thm DimThm.
 Import ListNotations.
 Section P.
   Context {T : Type} (O : Ops T) {FL : FieldLaws O}.
@@ -36,6 +36,13 @@ Section P.
     baumgarte O (RLoop idp ids Xp Xs ax true ts) err errd =
     osub O (oopp O (omul O (omul O (o2 O) (oinv O ts)) errd)) (omul O (omul O (oinv O ts) (oinv O ts)) err).
   Proof. exact (baumgarte_term O idp ids Xp Xs ax ts err errd). Qed.
+  (* the same without size premises, for every well-formed (constructed, C14) model *)
+  Theorem C08_motion_and_constraint_equations_constructed_models (M : @Model T) (w : @WS T) q qd tau cs fext w' Sy qdd lam :
+    WF M -> length tau = dof_count M ->
+    forward_dynamics_constraints O M w q qd tau cs fext = (w', Sy, Some (qdd, lam)) ->
+    vadd O (mvmul O (cH Sy) qdd) (cC Sy) = vadd O tau (mTvmul O (cG Sy) (dof_count M) lam) /\
+    mvmul O (cG Sy) qdd = cgamma Sy.
+  Proof. intros W. exact (fdc_equations_sized O oeqb_spec M w q qd tau cs fext w' Sy qdd lam (wf_qdot M W)). Qed.
 End P.
 Print Assumptions C08_solver_sound.
 Print Assumptions C08_solver_unique.
@@ -55,3 +62,4 @@ Proof.
   split; [reflexivity|].
   intros [|[|i]] H; try reflexivity. exfalso. apply (PeanoNat.Nat.nlt_0_r i). apply le_S_n, le_S_n. exact H.
 Qed.
+Print Assumptions C08_motion_and_constraint_equations_constructed_models.
